@@ -65,7 +65,7 @@ def direct(run):
         run.oblige("direct:pmh-props", "correspondence", False, (out[-300:] + err[-300:]))
         return
     for f in js["found"]:
-        if f["key"] in ("3-vs-3a", "order-3", "order-2", "batch-3a", "batch-3asha", "entry-2", "batch-2", "panic"):
+        if f["key"] in ("3-vs-3a", "order-3", "order-2", "batch-3a", "batch-3asha", "entry-2", "batch-2", "panic", "scale"):
             run.violation(f["key"], f["text"], {"kind": "impl-input", "sketcher": "ProbMinHash", "input": f["input"], "observed": f["text"]})
             break
 
@@ -77,7 +77,7 @@ def search(run):
     rc, js, out, err = vlib.harness(["pmh-props", "--seed", run.seed, "--n", 300], timeout=2400)
     if rc == 0 and js is not None:
         for f in js["found"]:
-            if f["key"] in ("3-vs-3a", "order-3", "order-2", "batch-3a", "batch-3asha", "entry-2", "batch-2"):
+            if f["key"] in ("3-vs-3a", "order-3", "order-2", "batch-3a", "batch-3asha", "entry-2", "batch-2", "scale"):
                 run.violation(f["key"], f["text"], {"kind": "impl-input", "sketcher": "ProbMinHash", "input": f["input"], "observed": f["text"]})
                 break
     rc, js, out, err = vlib.harness(["pmh-mc", "--seed", run.seed, "--trials", 3000], timeout=3000)
